@@ -36,3 +36,10 @@ CLAIMS["C14"] = (
     "Trusts pandas Index.join(how='outer') and iterrows order; continuing after update_variables inherits C04's T1 (now fixed).",
     "DESIGN.md section 4 C14",
 )
+CLAIMS["C19"] = (
+    "publish-idiom classification of the cache's default save function (direct write vs temp+replace) against the load path's protection, plus key/path agreement and cache-forwarding call-site checks",
+    "Decides the crash-consistency idiom for EVERY kill instant at once: the path whose existence means 'result available' is only written by write-to-temporary then atomic replace (or the load treats a failed read as a miss) - which fault injection would need one run per byte offset to explore; "
+    "and the transparency plumbing: hit test, load and save use one path, the miss path returns exactly what it saves, hit and miss return the input key, the cache directory exists before workers run, and every scan/mc entry forwards its cache argument.",
+    "Trusts os.replace/Path.replace atomicity on POSIX; does not execute a kill, does not decide fsync durability or key->filename injectivity.",
+    "DESIGN.md section 4 C19",
+)
